@@ -139,6 +139,7 @@ package routing
 //@   ensures [C11.lag-out] forall(t, 0, inflow.len, outflow.at(t) == ite(t < int(timeLag), old(lagged[t]), inflow.at(t - int(timeLag))))
 //@   ensures [C11.lag-buffer] len(r) == int(timeLag) && forall(j, 0, int(timeLag), r[j] == ite(inflow.len + j < int(timeLag), old(lagged[inflow.len + j]), inflow.at(inflow.len + j - int(timeLag))))
 //@   ensures [C11.lag-same-buffer] r == lagged
+//@   ensures [C04.shape] len(r) == len(lagged)
 //@   loop 0 invariant 0 <= i && i <= min(lagSteps, outflow.len) && lagSteps == int(timeLag) && lagSteps > 0
 //@   loop 0 invariant forall(t, 0, i, outflow.at(t) == lagged[t])
 //@   loop 1 invariant lagSteps <= i && (i <= outflow.len || i == lagSteps) && lagSteps == int(timeLag)
@@ -234,4 +235,44 @@ package routing
 //@   callsite muskingum [C04.arg-param] arg5 == m.K.elem(i % m.K.dim(0)) && arg6 == m.X.elem(i % m.X.dim(0)) && arg7 == m.DeltaT.elem(i % m.DeltaT.dim(0))
 //@   callsite muskingum [C04.arg-output,C05.writes-own-rows] arg8.dim(0) == inputs.dim(2) && arg8.root == outputs.root && forall(t, 0, inputs.dim(2), arg8.idx(t) == outputs.idx(i, 0, t))
 //@   atsend [C04.state-back] states.elem(i, 0) == s && states.elem(i, 1) == previnflow && states.elem(i, 2) == prevoutflow
+//@   loop 0 invariant 0 <= j && j <= numCells
+
+// ---- C04/C06: Lag state packing and the Lag wrapper (hand-written: the state row is the lag buffer) ----
+
+//@ func packLagStates(lagged) returns (result)
+//@   ndmodel locations
+//@   assigns nothing
+//@   fresh result
+//@   ensures [C04.pack-shape] result != nil && result.rank == 2 && result.dim(0) == 1 && result.dim(1) == len(lagged) && result.root == result.ref && injective(result)
+//@   ensures [C06.pack-lag-buffer,C04.pack-lag-buffer] forall(k, 0, len(lagged), result.elem(0, k) == lagged[k])
+
+//@ func extractLagStates(states) returns (lagged)
+//@   ndmodel locations
+//@   requires states != nil && states.rank == 1
+//@   assigns nothing
+//@   fresh lagged
+//@   ensures [C06.extract-lag-buffer,C04.extract-lag-buffer] len(lagged) == states.dim(0) && forall(k, 0, states.dim(0), lagged[k] == states.elem(k))
+
+//@ func (*Lag).ApplyParameters(m, parameters)
+//@   ndmodel locations
+//@   requires parameters.rank == 2 && parameters.dim(0) >= 1 && parameters.dim(1) >= 1
+//@   assigns m.timeLag
+//@   ensures [C04.param-view] m.timeLag != nil && m.timeLag.rank == 1 && m.timeLag.dim(0) == parameters.dim(1) && m.timeLag.root == parameters.root && forall(c, 0, parameters.dim(1), m.timeLag.idx(c) == parameters.idx(0, c))
+
+//@ func (*Lag).Run(m, inputs, states, outputs)
+//@   ndmodel locations
+//@   requires inputs.rank == 3 && states.rank == 2 && outputs.rank == 3
+//@   requires inputs.dim(0) >= 1 && inputs.dim(1) == 1 && inputs.dim(2) >= 0 && states.dim(0) >= 0 && states.dim(1) >= 0
+//@   requires outputs.dim(0) >= states.dim(0) && outputs.dim(1) >= 1 && outputs.dim(2) >= inputs.dim(2)
+//@   requires injective(states) && injective(outputs) && injective(inputs)
+//@   requires inputs.root != states.root && inputs.root != outputs.root && states.root != outputs.root
+//@   requires m.timeLag != nil && m.timeLag.rank == 1 && m.timeLag.dim(0) >= 1 && m.timeLag.root != states.root && m.timeLag.root != outputs.root
+//@   assigns nothing
+//@   writes wroot == states.root && exists(s, 0, states.dim(1), widx == states.idx(i, s))
+//@   writes wroot == outputs.root && exists(o, 0, outputs.dim(1), exists(t, 0, outputs.dim(2), widx == outputs.idx(i, o, t)))
+//@   callsite lag [C04.arg-input] arg0.dim(0) == inputs.dim(2) && arg0.root == inputs.root && forall(t, 0, inputs.dim(2), arg0.idx(t) == inputs.idx(i % inputs.dim(0), 0, t))
+//@   callsite lag [C04.arg-state] len(arg1) == states.dim(1) && forall(k, 0, states.dim(1), arg1[k] == states.elem(i, k))
+//@   callsite lag [C04.arg-param] arg2 == m.timeLag.elem(i % m.timeLag.dim(0))
+//@   callsite lag [C04.arg-output,C05.writes-own-rows] arg3.dim(0) == inputs.dim(2) && arg3.root == outputs.root && forall(t, 0, inputs.dim(2), arg3.idx(t) == outputs.idx(i, 0, t))
+//@   atsend [C04.state-back] forall(k, 0, states.dim(1), states.elem(i, k) == lagged[k])
 //@   loop 0 invariant 0 <= j && j <= numCells
